@@ -17,8 +17,10 @@
 (* Cryptography is symbolic.  A corrupt member controls, per message:      *)
 (*   phase 1   eph keys: ok | missing (no key for some member) | selfkey   *)
 (*             (also carries a key for the sender itself) | silent         *)
-(*   phase 3   per receiver share: ok | bad (decrypts, inconsistent with   *)
-(*             the commitments) | undec (does not decrypt) | absent;       *)
+(*   phase 3   per receiver share: ok | bad (decrypts, s off the polynomial:*)
+(*             fails the commitments and the points) | badt (s fine, t     *)
+(*             wrong: fails the commitments, fits the points) | undec      *)
+(*             (does not decrypt) | absent;                                *)
 (*             commitments: ok | wrong (count); either message missing     *)
 (*   phase 4/8 accusations: any set of accused ids in 0..N+1 (incl. self,  *)
 (*             honest, inactive, non existent), revealed key right/wrong   *)
@@ -229,7 +231,7 @@ I4(h, m) ==
                          THEN [a1 EXCEPT !.v = MarkDQ(@, c.claim)]
                          ELSE IF c.claim \notin m.eph            \* "no symmetric key for sender": fatal
                          THEN [a1 EXCEPT !.abort = TRUE]
-                         ELSE IF p[h] \in {"undec", "bad"}       \* cannot decrypt / invalid against commitments
+                         ELSE IF p[h] \in {"undec", "bad", "badt"}  \* cannot decrypt / invalid against commitments
                          THEN [a1 EXCEPT !.v = MarkDQ(@, c.claim), !.acc = @ \cup {c.claim}]
                          ELSE [a1 EXCEPT !.v.qual = @ \cup {c.claim}]
         r == FoldLeft(step, a0, DedupMsgs(cms))
@@ -307,7 +309,8 @@ Resolve9(h, m, accuser, e) ==
     ELSE IF accused \notin DOMAIN m.shm THEN R({accuser}, {})
     ELSE LET s == ShareOf(m, accused, accuser) IN
          IF s \in {"absent", "undec"} THEN R({accuser, accused}, {accused})
-         ELSE IF accused \in DOMAIN m.pts /\ s = "ok" /\ accuser \in m.pts[accused]
+         \* only the s share is decrypted and compared with the points
+         ELSE IF accused \in DOMAIN m.pts /\ s \in {"ok", "badt"} /\ accuser \in m.pts[accused]
          THEN R({accuser}, {})                                  \* false accusation
          ELSE R({accused}, {accused})                           \* confirmed misbehaviour
 
@@ -425,6 +428,7 @@ EphChoices ==
                   \cup (IF Has("eph.selfkey") THEN {<<"selfkey", 1>>} ELSE {})
 
 ShareVals == {"ok"} \cup (IF Has("sh.bad") THEN {"bad"} ELSE {})
+                    \cup (IF Has("sh.badt") THEN {"badt"} ELSE {})
                     \cup (IF Has("sh.undec") THEN {"undec"} ELSE {})
                     \cup (IF Has("sh.absent") THEN {"absent"} ELSE {})
 ShareChoices(c, b) ==
